@@ -38,7 +38,7 @@ func c13Housekeeping(ctx *core.Ctx, res *core.Result) {
 	defer scr.Close()
 	binPath := filepath.Join(core.VerifDir, ".build", "bin") + ":" + os.Getenv("PATH")
 	for hi, h := range c13HouseHistories {
-		for _, job := range []string{"compress-policies", "delete-old-policies", "both"} {
+		for _, job := range []string{"compress-policies", "delete-old-policies", "both", "delete-old-policies-quiet"} {
 			dir := filepath.Join(scr.Dir, fmt.Sprintf("h%d-%s", hi, job))
 			os.MkdirAll(dir, 0755)
 			w := newC13World(dir)
@@ -66,13 +66,37 @@ func c13Housekeeping(ctx *core.Ctx, res *core.Result) {
 				c := exec.Command(filepath.Join(corpus.RepoDir, "bin", script))
 				c.Env = []string{"HOME=" + dir, "PATH=" + binPath}
 				if out, err := c.CombinedOutput(); err != nil {
-					res.Broken = append(res.Broken, fmt.Sprintf("house: %s: %v %s", script, err, out))
+					// the cron job itself fails on a tree that only normal use produced
+					res.Evaluations++
+					res.AddViolation(core.Violation{Property: "C13", Engine: "histx/house", Space: job, Events: append(append([]string{}, ev...), "cron: "+script),
+						Oracle: "never-forgets", Signature: "house-script-failed:" + script,
+						Message: fmt.Sprintf("%s fails: %v\n%s", script, err, strings.ReplaceAll(string(out), dir, "$BASE"))})
 					return false
 				}
 				ev = append(ev, "cron: "+script)
 				return true
 			}
-			if job != "compress-policies" {
+			if job == "delete-old-policies-quiet" {
+				// nothing happened for 40 days: no new policy (so the current
+				// one, the link to it and the directories themselves are that
+				// old); the status files are younger (a compare ran meanwhile)
+				old := []string{"-h", "-d", "40 days ago", filepath.Join(dir, "policies"), filepath.Join(dir, "policies", "current"),
+					filepath.Join(dir, "status"), filepath.Join(dir, "history"), filepath.Join(dir, "lock")}
+				for _, p := range w.policies {
+					old = append(old, w.pdir(p.n))
+				}
+				if out, err := exec.Command("touch", old...).CombinedOutput(); err != nil {
+					res.Broken = append(res.Broken, fmt.Sprintf("house: touch: %v %s", err, out))
+					continue
+				}
+				if !run("delete-old-policies") {
+					continue
+				}
+				// the job may remove the old policies, never the current one
+				for _, p := range w.policies[:len(w.policies)-1] {
+					p.disk = "gone"
+				}
+			} else if job != "compress-policies" {
 				// every policy but the current one is older than keep_history
 				old := time.Now().Add(-40 * 24 * time.Hour)
 				for _, p := range w.policies[:len(w.policies)-1] {
@@ -85,7 +109,7 @@ func c13Housekeeping(ctx *core.Ctx, res *core.Result) {
 					p.disk = "gone"
 				}
 			}
-			if job != "delete-old-policies" {
+			if job != "delete-old-policies" && job != "delete-old-policies-quiet" {
 				if !run("compress-policies") {
 					continue
 				}
